@@ -737,6 +737,324 @@ theorem equivariant_of_affineImage (rows : List (Row ℚ)) (f g : Nat) (a b ε x
   rw [pairs_affine rows f g a b hrows]
   exact equivariant_eps_bound _ ε a b x hε ha (sxx_pos_of_affineImage rows f g a b h)
 
+/-! ### `minRt` in exact arithmetic is the minimum of the confident RTs of (peptide, file) -/
+
+theorem fmin_rat (a b : ℚ) : fmin a b = min a b := by
+  unfold fmin
+  simp only [isNaN, Bool.false_eq_true, if_false]
+  rcases lt_or_ge b a with h | h
+  · simp [h, min_eq_right h.le]
+  · simp [not_lt.mpr h, min_eq_left h]
+
+/-- the fold step of `minRt` on bare numbers -/
+def stepMin (acc : Option ℚ) (r : ℚ) : Option ℚ :=
+  match acc with
+  | none => some r
+  | some m => some (min m r)
+
+theorem foldl_stepMin_spec (l : List ℚ) (acc : Option ℚ) :
+    (l.foldl stepMin acc = none ↔ acc = none ∧ l = []) ∧
+    ∀ m, l.foldl stepMin acc = some m →
+      (acc = some m ∨ m ∈ l) ∧ (∀ a, acc = some a → m ≤ a) ∧ ∀ r ∈ l, m ≤ r := by
+  induction l generalizing acc with
+  | nil =>
+    simp only [List.foldl_nil, and_true, List.not_mem_nil, or_false, false_implies, implies_true, true_and]
+    intro m hm
+    refine ⟨hm, fun a ha => ?_⟩
+    rw [hm] at ha; simp only [Option.some.injEq] at ha; exact ha.le
+  | cons r l ih =>
+    simp only [List.foldl_cons]
+    obtain ⟨ihn, ihs⟩ := ih (stepMin acc r)
+    have hne : stepMin acc r ≠ none := by cases acc <;> simp [stepMin]
+    refine ⟨⟨fun h => absurd (ihn.mp h).1 hne, fun h => absurd h.2 (by simp)⟩, ?_⟩
+    intro m hm
+    obtain ⟨h1, h2, h3⟩ := ihs m hm
+    cases acc with
+    | none =>
+      simp only [stepMin] at h1 h2
+      refine ⟨Or.inr ?_, by simp, ?_⟩
+      · rcases h1 with h1 | h1
+        · simp only [Option.some.injEq] at h1; simp [h1]
+        · simp [h1]
+      · intro r' hr'
+        rcases List.mem_cons.mp hr' with rfl | hr'
+        · exact h2 _ rfl
+        · exact h3 _ hr'
+    | some a =>
+      simp only [stepMin] at h1 h2
+      have hle := h2 _ rfl
+      refine ⟨?_, ?_, ?_⟩
+      · rcases h1 with h1 | h1
+        · simp only [Option.some.injEq] at h1
+          rcases min_choice a r with hc | hc
+          · left; rw [← h1, hc]
+          · right; rw [← h1, hc]; simp
+        · right; simp [h1]
+      · intro a' ha'
+        simp only [Option.some.injEq] at ha'
+        subst ha'
+        exact le_trans hle (min_le_left _ _)
+      · intro r' hr'
+        rcases List.mem_cons.mp hr' with rfl | hr'
+        · exact le_trans hle (min_le_right _ _)
+        · exact h3 _ hr'
+
+/-- the confident RTs of peptide `p` in file `f` -/
+def rtsOf (thr : ℚ) (fs : List (Feat ℚ)) (p f : Nat) : List ℚ :=
+  (fs.filter (fun x => confident thr x && x.pep == p && x.file == f)).map (·.rt)
+
+theorem minRt_eq_foldl (thr : ℚ) (fs : List (Feat ℚ)) (p f : Nat) :
+    minRt thr fs p f = (rtsOf thr fs p f).foldl stepMin none := by
+  unfold minRt rtsOf
+  rw [List.foldl_map]
+  congr 1
+  funext acc x
+  cases acc <;> simp [stepMin, fmin_rat]
+
+theorem mem_rtsOf (thr : ℚ) (fs : List (Feat ℚ)) (p f : Nat) (r : ℚ) :
+    r ∈ rtsOf thr fs p f ↔ ∃ x ∈ fs, confident thr x = true ∧ x.pep = p ∧ x.file = f ∧ x.rt = r := by
+  simp only [rtsOf, List.mem_map, List.mem_filter, Bool.and_eq_true, beq_iff_eq]
+  constructor
+  · rintro ⟨x, ⟨hx, ⟨hc, hp⟩, hf⟩, hr⟩; exact ⟨x, hx, hc, hp, hf, hr⟩
+  · rintro ⟨x, hx, hc, hp, hf, hr⟩; exact ⟨x, ⟨hx, ⟨hc, hp⟩, hf⟩, hr⟩
+
+theorem minRt_none_iff (thr : ℚ) (fs : List (Feat ℚ)) (p f : Nat) :
+    minRt thr fs p f = none ↔ rtsOf thr fs p f = [] := by
+  rw [minRt_eq_foldl]
+  have := (foldl_stepMin_spec (rtsOf thr fs p f) none).1
+  simpa using this
+
+theorem minRt_some_spec (thr : ℚ) (fs : List (Feat ℚ)) (p f : Nat) (m : ℚ)
+    (h : minRt thr fs p f = some m) : m ∈ rtsOf thr fs p f ∧ ∀ r ∈ rtsOf thr fs p f, m ≤ r := by
+  rw [minRt_eq_foldl] at h
+  obtain ⟨h1, _, h3⟩ := (foldl_stepMin_spec (rtsOf thr fs p f) none).2 m h
+  exact ⟨by simpa using h1, h3⟩
+
+/-- an increasing affine image of the set of confident RTs has the image minimum -/
+theorem minRt_affine (thr : ℚ) (fs : List (Feat ℚ)) (p f g : Nat) (a b : ℚ) (ha : 0 < a)
+    (h : ∀ r, r ∈ rtsOf thr fs p g ↔ ∃ r0 ∈ rtsOf thr fs p f, r = a * r0 + b) :
+    minRt thr fs p g = (minRt thr fs p f).map (fun r => a * r + b) := by
+  cases hf : minRt thr fs p f with
+  | none =>
+    have hfe := (minRt_none_iff thr fs p f).mp hf
+    simp only [Option.map_none]
+    rw [minRt_none_iff]
+    apply List.eq_nil_iff_forall_not_mem.mpr
+    intro r hr
+    obtain ⟨r0, hr0, _⟩ := (h r).mp hr
+    rw [hfe] at hr0; exact absurd hr0 (by simp)
+  | some m =>
+    obtain ⟨hm, hlb⟩ := minRt_some_spec thr fs p f m hf
+    have himg : a * m + b ∈ rtsOf thr fs p g := (h _).mpr ⟨m, hm, rfl⟩
+    cases hg : minRt thr fs p g with
+    | none =>
+      have := (minRt_none_iff thr fs p g).mp hg
+      rw [this] at himg; exact absurd himg (by simp)
+    | some m' =>
+      obtain ⟨hm', hlb'⟩ := minRt_some_spec thr fs p g m' hg
+      obtain ⟨r0, hr0, hr0e⟩ := (h m').mp hm'
+      have h1 : m' ≤ a * m + b := hlb' _ himg
+      have h2 : a * m + b ≤ m' := by
+        rw [hr0e]; have := hlb r0 hr0; nlinarith
+      simp only [Option.map_some, Option.some.injEq]
+      exact le_antisymm h1 h2
+
+/-! ### rows of the RT matrix in terms of `minRt` -/
+
+theorem rowOf_xs (c : ℚ → Nat) (thr : ℚ) (fs : List (Feat ℚ)) (n p : Nat) (r : Row ℚ)
+    (h : rowOf c thr fs n p = some r) :
+    r.xs = ((List.range n).map fun f => (minRt thr fs p f).map (fun x => x / ((maxRtNat c fs f : Nat) : ℚ))) ∧
+    r.y = meanOf (r.xs.filterMap id) := by
+  unfold rowOf at h
+  simp only at h
+  split at h
+  · simp only [Option.some.injEq] at h
+    subst h
+    refine ⟨rfl, ?_⟩
+    simp [isFinite]
+  · exact absurd h (by simp)
+
+theorem mem_rtRows (c : ℚ → Nat) (thr : ℚ) (fs : List (Feat ℚ)) (n : Nat) (r : Row ℚ)
+    (h : r ∈ rtRows c thr fs n) : ∃ p, rowOf c thr fs n p = some r := by
+  unfold rtRows at h
+  obtain ⟨p, _, hp⟩ := List.mem_filterMap.mp h
+  exact ⟨p, hp⟩
+
+theorem row_entry (c : ℚ → Nat) (thr : ℚ) (fs : List (Feat ℚ)) (n p : Nat) (r : Row ℚ)
+    (h : rowOf c thr fs n p = some r) (f : Nat) (hf : f < n) :
+    r.xs[f]? = some ((minRt thr fs p f).map (fun x => x / ((maxRtNat c fs f : Nat) : ℚ))) := by
+  rw [(rowOf_xs c thr fs n p r h).1]
+  simp [hf]
+
+/-- raw-RT hypothesis ⇒ RT-matrix hypothesis, with `a' = a·M_f/M_g`, `b' = b/M_g` -/
+theorem rows_affine_raw (c : ℚ → Nat) (thr : ℚ) (fs : List (Feat ℚ)) (n f g : Nat)
+    (hf : f < n) (hg : g < n) (a b : ℚ) (ha : 0 < a)
+    (h : ∀ p r, r ∈ rtsOf thr fs p g ↔ ∃ r0 ∈ rtsOf thr fs p f, r = a * r0 + b) :
+    ∀ r ∈ rtRows c thr fs n, (r.xs[g]?).getD none =
+      ((r.xs[f]?).getD none).map (fun x =>
+        (a * ((maxRtNat c fs f : Nat) : ℚ) / ((maxRtNat c fs g : Nat) : ℚ)) * x
+          + b / ((maxRtNat c fs g : Nat) : ℚ)) := by
+  intro r hr
+  obtain ⟨p, hp⟩ := mem_rtRows c thr fs n r hr
+  rw [row_entry c thr fs n p r hp f hf, row_entry c thr fs n p r hp g hg,
+    minRt_affine thr fs p f g a b ha (h p)]
+  have hMf : (((maxRtNat c fs f : Nat)) : ℚ) ≠ 0 := by exact_mod_cast (maxRtNat_pos c fs f).ne'
+  have hMg : (((maxRtNat c fs g : Nat)) : ℚ) ≠ 0 := by exact_mod_cast (maxRtNat_pos c fs g).ne'
+  cases minRt thr fs p f with
+  | none => simp
+  | some m =>
+    simp only [Option.map_some, Option.getD_some, Option.some.injEq]
+    field_simp
+
+/-- **C20.alignment_equivariant_raw** — equivariance stated on RAW retention times (ε = 0): if, for every
+    peptide, the set of confident-target RTs of file `g` is the image `a·rt + b` (`a > 0`) of the set of
+    confident-target RTs of file `f` (multiplicities, order, decoys and non-confident PSMs are free —
+    the latter only move the files' `max_rt`), then a PSM at `rt` in `f` and a PSM at `a·rt + b` in `g`
+    get the SAME aligned time. No hypothesis on the two `max_rt` is needed: each file is divided by its
+    own positive constant (`max_rt_pos`), which is itself an affine map, so the `ceil` in
+    `max_rt_by_file` does not disturb equivariance in exact arithmetic (normalised columns are related
+    by `a' = a·M_f/M_g`, `b' = b/M_g`, lemma `rows_affine_raw`); in floats it costs one rounding of
+    `rt / max_rt`. `Sxx_f ≠ 0`: file `f` has two distinct normalised RTs among the kept rows. -/
+theorem alignment_equivariant_raw (c : ℚ → Nat) (thr : ℚ) (fs : List (Feat ℚ)) (n f g : Nat)
+    (hf : f < n) (hg : g < n) (a b : ℚ) (ha : 0 < a)
+    (h : ∀ p r, r ∈ rtsOf thr fs p g ↔ ∃ r0 ∈ rtsOf thr fs p f, r = a * r0 + b)
+    (hS : sxx (pairs (rtRows c thr fs n) f) ≠ 0) (rt : ℚ) :
+    let rows := rtRows c thr fs n
+    let af := alignFile id c 0 fs rows f
+    let ag := alignFile id c 0 fs rows g
+    alignedRt (a * rt + b) ((ag.1 : Nat) : ℚ) ag.2.1 ag.2.2 = alignedRt rt ((af.1 : Nat) : ℚ) af.2.1 af.2.2 := by
+  intro rows af ag
+  have hMf : (0 : ℚ) < ((maxRtNat c fs f : Nat) : ℚ) := by exact_mod_cast maxRtNat_pos c fs f
+  have hMg : (0 : ℚ) < ((maxRtNat c fs g : Nat) : ℚ) := by exact_mod_cast maxRtNat_pos c fs g
+  have ha' : a * ((maxRtNat c fs f : Nat) : ℚ) / ((maxRtNat c fs g : Nat) : ℚ) ≠ 0 := by positivity
+  have key := alignment_equivariant c fs rows f g _ _ (rt / ((maxRtNat c fs f : Nat) : ℚ)) ha'
+    (rows_affine_raw c thr fs n f g hf hg a b ha h) hS
+  simp only at key
+  have e1 : ag.1 = maxRtNat c fs g := rfl
+  have e2 : af.1 = maxRtNat c fs f := rfl
+  unfold alignedRt
+  rw [e1, e2]
+  have e3 : (a * rt + b) / ((maxRtNat c fs g : Nat) : ℚ)
+      = a * ((maxRtNat c fs f : Nat) : ℚ) / ((maxRtNat c fs g : Nat) : ℚ) * (rt / ((maxRtNat c fs f : Nat) : ℚ))
+        + b / ((maxRtNat c fs g : Nat) : ℚ) := by field_simp
+  rw [e3]
+  linear_combination key
+
+/-- **C20.alignment_equivariant_raw_eps** — the same with the code's regulariser ε ≥ 0 in both files: the two
+    aligned times differ by at most `|slope₀·(rt/M_f − x̄_f)| · ε · (1/Sxx_f + 1/Sxx_g)`. -/
+theorem alignment_equivariant_raw_eps (c : ℚ → Nat) (thr ε : ℚ) (fs : List (Feat ℚ)) (n f g : Nat)
+    (hf : f < n) (hg : g < n) (a b : ℚ) (ha : 0 < a) (hε : 0 ≤ ε)
+    (h : ∀ p r, r ∈ rtsOf thr fs p g ↔ ∃ r0 ∈ rtsOf thr fs p f, r = a * r0 + b)
+    (hS : 0 < sxx (pairs (rtRows c thr fs n) f)) (rt : ℚ) :
+    let rows := rtRows c thr fs n
+    let af := alignFile id c ε fs rows f
+    let ag := alignFile id c ε fs rows g
+    |alignedRt (a * rt + b) ((ag.1 : Nat) : ℚ) ag.2.1 ag.2.2 - alignedRt rt ((af.1 : Nat) : ℚ) af.2.1 af.2.2|
+      ≤ |(fit 0 (pairs rows f)).1 * (rt / ((af.1 : Nat) : ℚ) - sX (pairs rows f) / ((pairs rows f).length : ℚ))|
+          * (ε / sxx (pairs rows f) + ε / sxx (pairs rows g)) := by
+  intro rows af ag
+  have hMf : (0 : ℚ) < ((maxRtNat c fs f : Nat) : ℚ) := by exact_mod_cast maxRtNat_pos c fs f
+  have hMg : (0 : ℚ) < ((maxRtNat c fs g : Nat) : ℚ) := by exact_mod_cast maxRtNat_pos c fs g
+  have ha' : a * ((maxRtNat c fs f : Nat) : ℚ) / ((maxRtNat c fs g : Nat) : ℚ) ≠ 0 := by positivity
+  have hp := pairs_affine rows f g _ _ (rows_affine_raw c thr fs n f g hf hg a b ha h)
+  have key := equivariant_eps_bound (pairs rows f) ε _ (b / ((maxRtNat c fs g : Nat) : ℚ))
+    (rt / ((maxRtNat c fs f : Nat) : ℚ)) hε ha' hS
+  rw [← hp] at key
+  have e1 : ag = (maxRtNat c fs g, (fit ε (pairs rows g)).1, (fit ε (pairs rows g)).2) := by
+    simp [ag, alignFile, guardFinite_rat]
+  have e2 : af = (maxRtNat c fs f, (fit ε (pairs rows f)).1, (fit ε (pairs rows f)).2) := by
+    simp [af, alignFile, guardFinite_rat]
+  rw [e1, e2]
+  simp only [alignedRt]
+  have e3 : (a * rt + b) / ((maxRtNat c fs g : Nat) : ℚ)
+      = a * ((maxRtNat c fs f : Nat) : ℚ) / ((maxRtNat c fs g : Nat) : ℚ) * (rt / ((maxRtNat c fs f : Nat) : ℚ))
+        + b / ((maxRtNat c fs g : Nat) : ℚ) := by field_simp
+  rw [e3]
+  have e4 : ∀ s i x : ℚ, x * s + i = s * x + i := fun s i x => by ring
+  rw [e4 (fit ε (pairs rows g)).1 _ _, e4 (fit ε (pairs rows f)).1 _ _]
+  exact key
+
+/-! ### a file sharing no peptide with the others (multi-file run) -/
+
+theorem filterMap_range_single {β : Type} (F : Nat → Option β) (f : Nat) (x : β)
+    (hf : F f = some x) (hg : ∀ g, g ≠ f → F g = none) (n : Nat) :
+    (List.range n).filterMap F = if f < n then [x] else [] := by
+  induction n with
+  | zero => simp
+  | succ n ih =>
+    rw [List.range_succ, List.filterMap_append, ih]
+    rcases Nat.lt_trichotomy f n with h | h | h
+    · have : F n = none := hg n (by omega)
+      simp [h, this, Nat.lt_succ_of_lt h]
+    · subst h; simp [hf]
+    · have : F n = none := hg n (by omega)
+      have h1 : ¬ f < n := by omega
+      have h2 : ¬ f < n + 1 := by omega
+      simp [h1, h2, this]
+
+/-- a file that shares no peptide with any other file: every regression point has `y = x` -/
+theorem own_file_pairs_diag (c : ℚ → Nat) (thr : ℚ) (fs : List (Feat ℚ)) (n f : Nat)
+    (hown : ∀ x ∈ fs, ∀ y ∈ fs, confident thr x = true → confident thr y = true →
+      x.file = f → y.file ≠ f → x.pep ≠ y.pep) :
+    ∀ q ∈ pairs (rtRows c thr fs n) f, q.2 = q.1 := by
+  intro q hq
+  simp only [pairs, List.mem_filterMap] at hq
+  obtain ⟨r, hr, hq⟩ := hq
+  obtain ⟨p, hp⟩ := mem_rtRows c thr fs n r hr
+  obtain ⟨hxs, hy⟩ := rowOf_xs c thr fs n p r hp
+  rcases hx : r.xs[f]? with _ | (_ | x)
+  · simp [hx] at hq
+  · simp [hx] at hq
+  simp only [hx, isFinite, if_true, Option.some.injEq] at hq
+  subst hq
+  show r.y = x
+  -- the entry of `f`
+  have hfn : f < n := by
+    by_contra hge
+    rw [hxs] at hx
+    simp [List.getElem?_eq_none (show ((List.range n).map _).length ≤ f by simp; omega)] at hx
+  have hxf : (minRt thr fs p f).map (fun x => x / ((maxRtNat c fs f : Nat) : ℚ)) = some x := by
+    have := row_entry c thr fs n p r hp f hfn
+    rw [hx] at this
+    exact (Option.some.inj this).symm
+  obtain ⟨m, hm, _⟩ := Option.map_eq_some_iff.mp hxf
+  obtain ⟨hmem, _⟩ := minRt_some_spec thr fs p f m hm
+  obtain ⟨xf, hxf_mem, hxf_c, hxf_p, hxf_f, _⟩ := (mem_rtsOf thr fs p f m).mp hmem
+  -- every other file has no entry for `p`
+  have hother : ∀ g, g ≠ f → (minRt thr fs p g).map (fun x => x / ((maxRtNat c fs g : Nat) : ℚ)) = none := by
+    intro g hgf
+    rw [Option.map_eq_none_iff, minRt_none_iff]
+    apply List.eq_nil_iff_forall_not_mem.mpr
+    intro r' hr'
+    obtain ⟨y, hy_mem, hy_c, hy_p, hy_f, _⟩ := (mem_rtsOf thr fs p g r').mp hr'
+    exact hown xf hxf_mem y hy_mem hxf_c hy_c hxf_f (by omega) (by rw [hxf_p, hy_p])
+  have hfm : r.xs.filterMap id = [x] := by
+    rw [hxs, List.filterMap_map]
+    have := filterMap_range_single
+      (fun g => (minRt thr fs p g).map (fun x => x / ((maxRtNat c fs g : Nat) : ℚ))) f x hxf hother n
+    simpa [hfn, Function.comp_def] using this
+  rw [hy, hfm, meanOf_singleton]
+
+/-- **C20.own_file_monotone** — pipeline form of "a file on its own is mapped monotonically" inside a
+    MULTI-file run: if no peptide with a confident target PSM in file `f` also has one in another file
+    (hypothesis `hown`, on the raw feature list; any `n_files`, any other files), then every row of the
+    RT matrix with an entry for `f` has no other entry, so its cross-run mean is that entry (`y = x`),
+    the fitted slope of `f` is `Sxx/(ε+Sxx) ∈ [0, 1]` and `rt ↦ aligned_rt` is monotone on file `f`. -/
+theorem own_file_monotone (c : ℚ → Nat) (thr ε : ℚ) (fs : List (Feat ℚ)) (n f : Nat) (hε : 0 < ε)
+    (hown : ∀ x ∈ fs, ∀ y ∈ fs, confident thr x = true → confident thr y = true →
+      x.file = f → y.file ≠ f → x.pep ≠ y.pep)
+    (rt rt' : ℚ) (h : rt ≤ rt') :
+    let a := alignFile id c ε fs (rtRows c thr fs n) f
+    (0 ≤ a.2.1 ∧ a.2.1 ≤ 1) ∧
+      alignedRt rt ((a.1 : Nat) : ℚ) a.2.1 a.2.2 ≤ alignedRt rt' ((a.1 : Nat) : ℚ) a.2.1 a.2.2 := by
+  intro a
+  have hs : 0 ≤ a.2.1 ∧ a.2.1 ≤ 1 := by
+    show 0 ≤ (id (guardFinite (fit ε (pairs (rtRows c thr fs n) f))).1) ∧ _
+    simp only [guardFinite_rat, id]
+    exact own_file_slope _ ε hε (own_file_pairs_diag c thr fs n f hown)
+  refine ⟨hs, aligned_monotone _ _ _ _ _ ?_ hs.1 h⟩
+  exact_mod_cast maxRtNat_pos c fs f
+
 /-! ## non-vacuity examples -/
 
 /-- `ols_equivariant`: three points, `x' = 2x + 3`: hypotheses hold and both sides are the same number -/
@@ -796,6 +1114,29 @@ example : ((fit (XQ.ofQ (1 / 100)) (liftPts [(1 / 2, 1 / 3)])).1.val,
 example : affineImage
     [⟨0, [some (1 / 4), some (5 / 8)], 0⟩, ⟨1, [some (1 / 2), some (9 / 8)], 0⟩, ⟨2, [some 1, some (17 / 8)], 0⟩]
     0 1 = some (2, 1 / 8) := by
+  decide +kernel
+
+/-- `alignment_equivariant_raw` on a concrete two-file set: file 1 = 2·rt + 3 of file 0 (RTs 10, 20, 40 ↦
+    23, 43, 83; max_rt 40 and 83 — not in the ratio 2, and it does not matter): the PSM at 20 in file 0
+    and the PSM at 43 in file 1 get the same aligned time with ε = 0 -/
+example :
+    let fs : List (Feat ℚ) := [⟨0, 0, 1, 0, 10⟩, ⟨0, 1, 1, 0, 20⟩, ⟨0, 2, 1, 0, 40⟩,
+                               ⟨1, 0, 1, 0, 23⟩, ⟨1, 1, 1, 0, 43⟩, ⟨1, 2, 1, 0, 83⟩]
+    let c : ℚ → Nat := fun r => (Rat.ceil r).toNat
+    let rows := rtRows c (1 / 100) fs 2
+    let af := alignFile id c 0 fs rows 0
+    let ag := alignFile id c 0 fs rows 1
+    (af.1, ag.1) = (40, 83) ∧
+    alignedRt (2 * 20 + 3) ((ag.1 : Nat) : ℚ) ag.2.1 ag.2.2 = alignedRt 20 ((af.1 : Nat) : ℚ) af.2.1 af.2.2 := by
+  decide +kernel
+
+/-- `own_file_monotone` on a concrete two-file run with disjoint peptides: file 0 (peptides 0,1,2) has
+    slope 175/181 ∈ [0,1] although file 1 (peptides 5,6) is present -/
+example :
+    let fs : List (Feat ℚ) := [⟨0, 0, 1, 0, 10⟩, ⟨0, 1, 1, 0, 20⟩, ⟨0, 2, 1, 0, 40⟩,
+                               ⟨1, 5, 1, 0, 7⟩, ⟨1, 6, 1, 0, 9⟩]
+    let c : ℚ → Nat := fun r => (Rat.ceil r).toNat
+    (alignFile id c (1 / 100) fs (rtRows c (1 / 100) fs 2) 0).2.1 = 175 / 181 := by
   decide +kernel
 
 end Sage.C20
